@@ -158,7 +158,7 @@ def compare_msg(s):
     return s[:100]
 
 
-def gen_workload(rng, n_dbs, q_per_db, weights=None, max_depth=3, max_rows=60, exec_fn=None, id_prefix="w", chk=None):
+def gen_workload(rng, n_dbs, q_per_db, weights=None, max_depth=3, max_rows=60, exec_fn=None, id_prefix="w", chk=None, steps_fn=None, extra_avoid=None):
     """-> list of (case, db, [(q, sql, tags)]) ; steps = load + queries."""
     out = []
     for d in range(n_dbs):
@@ -175,6 +175,8 @@ def gen_workload(rng, n_dbs, q_per_db, weights=None, max_depth=3, max_rows=60, e
             except (IndexError, ValueError, KeyError) as e:
                 continue
             reasons = avoid.query_avoid_reasons(q, ex.get("partitions", 4))
+            if extra_avoid:
+                reasons |= extra_avoid(q)
             if reasons:
                 if chk is not None:
                     for r in reasons:
@@ -184,14 +186,19 @@ def gen_workload(rng, n_dbs, q_per_db, weights=None, max_depth=3, max_rows=60, e
         steps = [{"sql": s, "out": "count"} for s in load]
         bs = rng.choice([1, 2, 3, 7, 16, 64, 2048])
         steps.append({"sql": f"SET batch_size TO {bs}", "out": "count"})
-        steps += [{"sql": sql} for (_, sql, _) in qs]
-        case = {"id": f"{id_prefix}{d}", "exec": ex, "steps": steps, "max_rows": 20000}
+        per = 1
+        for (_, sql, _) in qs:
+            st = steps_fn(sql) if steps_fn else [{"sql": sql}]
+            per = len(st)
+            steps += st
+        case = {"id": f"{id_prefix}{d}", "exec": ex, "steps": steps, "max_rows": 20000, "per_query": per}
         out.append((case, db, qs, len(load) + 1))
     return out
 
 
 def run_workload(chk, work, shards=16, wall_s=900, judge_fn=None):
-    """Runs cases; re-runs the remainder of a case after a panic (fresh engine, reload). Yields judged results."""
+    """Runs cases; re-runs the remainder of a case after a panic (fresh engine, reload). Yields judged results.
+    With case["per_query"] = k > 1 every query owns k consecutive steps and judge_fn receives the list of them."""
     pending = [(case, db, qs, nload, 0) for (case, db, qs, nload) in work]
     rounds = 0
     stats = {"restarts": 0}
@@ -199,14 +206,16 @@ def run_workload(chk, work, shards=16, wall_s=900, judge_fn=None):
         rounds += 1
         cases = []
         for (case, db, qs, nload, start) in pending:
-            c = dict(case)
+            k = case.get("per_query", 1)
+            c = {x: y for x, y in case.items() if x != "per_query"}
             c["id"] = f"{case['id']}@{start}"
-            c["steps"] = case["steps"][:nload] + case["steps"][nload + start:]
+            c["steps"] = case["steps"][:nload] + case["steps"][nload + start * k:]
             cases.append(c)
         results, meta = vrun.run_sharded(cases, shards=shards, wall_s=wall_s)
         stats["restarts"] += meta["restarts"]
         nxt = []
         for (case, db, qs, nload, start), c in zip(pending, cases):
+            k = case.get("per_query", 1)
             res = results.get(c["id"])
             if res is None or "not_run" in res or "fatal" in res:
                 chk.inconc("case not run")
@@ -221,14 +230,23 @@ def run_workload(chk, work, shards=16, wall_s=900, judge_fn=None):
                 chk.violation({"kind": "load-failed"}, f"loading the database failed: {json.dumps(bad)[:300]}", {"cases": [c]})
                 continue
             panicked_at = None
-            for j, st in enumerate(steps[nload:]):
-                qi = start + j
-                q, sql, tags = qs[qi]
-                if st["outcome"] == "skipped":
+            qsteps = steps[nload:]
+            for j in range(0, len(qsteps), k):
+                qi = start + j // k
+                if qi >= len(qs):
                     break
-                verdict = (judge_fn or judge)(chk, db, q, sql, st, c, tags)
+                q, sql, tags = qs[qi]
+                group = qsteps[j:j + k]
+                if group[0]["outcome"] == "skipped":
+                    break
+                if k == 1:
+                    verdict = (judge_fn or judge)(chk, db, q, sql, group[0], c, tags)
+                    st = group[0]
+                else:
+                    verdict = judge_fn(chk, db, q, sql, group, c, tags)
+                    st = group[-1]
                 yield (verdict, q, sql, tags, st, c)
-                if st["outcome"] == "panic":
+                if any(g["outcome"] == "panic" for g in group):
                     panicked_at = qi
                     break
             if panicked_at is not None and panicked_at + 1 < len(qs):
